@@ -25,12 +25,56 @@ def len32(n):
     return n.to_bytes(4, 'big')
 
 
-def prim_table():
+# The protocol's primitive table (Michelson_v1_primitives: position = tag), written out independently of pytezos.
+PROTOCOL_PRIMS = """parameter storage code False Elt Left None Pair Right Some True Unit PACK UNPACK BLAKE2B SHA256 SHA512 ABS ADD AMOUNT AND BALANCE CAR CDR
+CHECK_SIGNATURE COMPARE CONCAT CONS CREATE_ACCOUNT CREATE_CONTRACT IMPLICIT_ACCOUNT DIP DROP DUP EDIV EMPTY_MAP EMPTY_SET EQ EXEC FAILWITH GE GET GT
+HASH_KEY IF IF_CONS IF_LEFT IF_NONE INT LAMBDA LE LEFT LOOP LSL LSR LT MAP MEM MUL NEG NEQ NIL NONE NOT NOW OR PAIR PUSH RIGHT SIZE SOME SOURCE SENDER
+SELF STEPS_TO_QUOTA SUB SWAP TRANSFER_TOKENS SET_DELEGATE UNIT UPDATE XOR ITER LOOP_LEFT ADDRESS CONTRACT ISNAT CAST RENAME bool contract int key
+key_hash lambda list map big_map nat option or pair set signature string bytes mutez timestamp unit operation address SLICE DIG DUG EMPTY_BIG_MAP
+APPLY chain_id CHAIN_ID LEVEL SELF_ADDRESS never NEVER UNPAIR VOTING_POWER TOTAL_VOTING_POWER KECCAK SHA3 PAIRING_CHECK bls12_381_g1 bls12_381_g2
+bls12_381_fr sapling_state sapling_transaction_deprecated SAPLING_EMPTY_STATE SAPLING_VERIFY_UPDATE ticket TICKET_DEPRECATED READ_TICKET SPLIT_TICKET
+JOIN_TICKETS GET_AND_UPDATE chest chest_key OPEN_CHEST VIEW view constant SUB_MUTEZ tx_rollup_l2_address MIN_BLOCK_TIME sapling_transaction EMIT
+Lambda_rec LAMBDA_REC TICKET BYTES NAT Ticket""".split()
+# spelling used by pytezos for the removed instruction at tag 28 (never produced by a typed program; accepted as an alias)
+ALIASES = {'CREATE_ACCOUNT': '__CREATE_ACCOUNT__'}
+PSEUDO_TAG = 0xee      # REPL-only pseudo primitives of pytezos all share this byte (a deliberate extension, outside the property)
+
+
+def protocol_table():
+    """name -> tag byte, from the protocol list above (independent of the live table)"""
+    return {ALIASES.get(p, p): bytes([i]) for i, p in enumerate(PROTOCOL_PRIMS)}
+
+
+def table_problems():
+    """disagreements between the live pytezos table and the protocol list: wrong tag, missing primitive, two encodable primitives on one tag"""
     from pytezos.michelson.tags import prim_tags
-    from collections import Counter
-    cnt = Counter(prim_tags.values())
-    # pytezos adds REPL-only pseudo primitives that all share one tag (0xee); protocol primitives have unique tags
-    return {k: (v if isinstance(v, bytes) else bytes(v)) for k, v in prim_tags.items() if cnt[v] == 1}
+    live = {k: (v if isinstance(v, (bytes, bytearray)) else bytes(v)) for k, v in prim_tags.items()}
+    out = []
+    for name, tag in protocol_table().items():
+        if name not in live:
+            out.append(f'protocol primitive {name} (tag {tag.hex()}) is missing from prim_tags')
+        elif bytes(live[name]) != tag:
+            out.append(f'primitive {name} has tag {bytes(live[name]).hex()}, the protocol assigns {tag.hex()}')
+    by_tag = {}
+    for name, tag in live.items():
+        if bytes(tag) != bytes([PSEUDO_TAG]):
+            by_tag.setdefault(bytes(tag), []).append(name)
+    for tag, names in sorted(by_tag.items()):
+        if len(names) > 1:
+            out.append(f'primitives {sorted(names)} share the tag {tag.hex()}: their encodings are indistinguishable')
+    return out
+
+
+def prim_table():
+    """protocol primitives at their protocol tags, plus live primitives of newer protocols on tags beyond the list (unique, not the pseudo tag)"""
+    from pytezos.michelson.tags import prim_tags
+    t = dict(protocol_table())
+    used = set(t.values())
+    for k, v in prim_tags.items():
+        v = v if isinstance(v, (bytes, bytearray)) else bytes(v)
+        if k not in t and bytes(v) not in used and bytes(v) != bytes([PSEUDO_TAG]) and v[0] >= len(PROTOCOL_PRIMS):
+            t[k] = bytes(v)
+    return t
 
 
 def normalize(e):
